@@ -499,3 +499,220 @@ CATALOGUE['C14'] = [
             query_string = ''
         prefix = params.get('prefix')"""),
 ]
+
+# --------------------------------------------------------------------- C09
+CATALOGUE['C09'] = [
+    V('cache store dropped', '_DocumentTemplate.py',
+      """                            else:
+                                cache[n] = cond
+                        else:""",
+      """                        else:""", 'C09.R2'),
+    V('cache store after the body', '_DocumentTemplate.py',
+      """                            else:
+                                cache[n] = cond
+                        else:
+                            cond = cond(md)
+
+                        if cond:
+                            block = block[icond + 2]
+                            if block:
+                                render_blocks_(block, rendered, md, encoding)""",
+      """                            else:
+                                pass
+                        else:
+                            cond = cond(md)
+
+                        if cond:
+                            block = block[icond + 2]
+                            if block:
+                                render_blocks_(block, rendered, md, encoding)
+                            cache[n] = cond""", 'C09.R2'),
+    V('cache shared between conditionals', '_DocumentTemplate.py',
+      """    for block in blocks:
+        append = True
+""",
+      """    cache = {}
+    for block in blocks:
+        append = True
+""", 'C09.R2',
+      extra=[("""                bs = len(block) - 1  # subtract code
+                cache = {}
+""", """                bs = len(block) - 1  # subtract code
+""")]),
+    V('second evaluation of the name', '_DocumentTemplate.py',
+      """                        if cond:
+                            block = block[icond + 2]""",
+      """                        if cond and (not isinstance(n, str) or md[cond]):
+                            block = block[icond + 2]""", 'C09.R1'),
+    V('no break after the body: later conditions evaluated',
+      '_DocumentTemplate.py',
+      """                            m = -1
+                            break
+""",
+      """                            m = -1
+""", 'C09.R1'),
+    V('else rendered after a true branch (sentinel lost)',
+      '_DocumentTemplate.py',
+      """                            m = -1
+                            break
+""",
+      """                            icond = m
+                            break
+""", 'C09.R1'),
+    V('expression condition evaluated twice', '_DocumentTemplate.py',
+      """                            cond = cond(md)
+""",
+      """                            cond(md)
+                            cond = cond(md)
+""", 'C09.R1'),
+    V('undefined name raises', '_DocumentTemplate.py',
+      """                            try:
+                                cond = md[cond]
+                            except KeyError as t:
+                                if n != t.args[0]:
+                                    raise
+                                cond = None
+                            else:
+                                cache[n] = cond""",
+      """                            cond = md[cond]
+                            cache[n] = cond""", 'C09.R3'),
+    V('foreign KeyError swallowed', '_DocumentTemplate.py',
+      """                                if n != t.args[0]:
+                                    raise
+                                cond = None""",
+      """                                cond = None""", 'C09.R3'),
+    V('lookup guard catches everything', '_DocumentTemplate.py',
+      "                            except KeyError as t:",
+      "                            except Exception as t:", 'C09.R3'),
+    V('unless compiled as if', 'DT_If.py',
+      "self.simple_form = ('i', cond, None, section.blocks)",
+      "self.simple_form = ('i', cond, section.blocks)", 'C09.R4'),
+    V('call compiled with a body', 'DT_Var.py',
+      "self.simple_form = ('i', expr, None)",
+      "self.simple_form = ('i', expr, expr)", 'C09.R4'),
+    V('if: else appended before the elifs', 'DT_If.py',
+      """        sections = [cond, section.blocks]
+""",
+      """        sections = [cond, section.blocks, section.blocks]
+""", 'C09.R4'),
+    V('new opcode without handler', 'DT_Var.py',
+      "self.simple_form = ('i', expr, None)",
+      "self.simple_form = ('c', expr, None)", 'C09.R4'),
+    # silent
+    V('silent: icond += 2 -> icond = icond + 2', '_DocumentTemplate.py',
+      "                        icond += 2", "                        icond += 1 + 1"),
+    V('silent: rename cache var', '_DocumentTemplate.py',
+      """                cache = {}
+                md._push(cache)""",
+      """                cache = {}
+                kache = cache
+                md._push(cache)"""),
+]
+
+# --------------------------------------------------------------------- C02
+CATALOGUE['C02'] = [
+    V('vars and kw pushes swapped', 'DT_String.py',
+      """        if self._vars:
+            push(self._vars)
+            pushed = pushed + 1
+
+        if kw:
+            push(kw)
+            pushed = pushed + 1
+""",
+      """        if kw:
+            push(kw)
+            pushed = pushed + 1
+
+        if self._vars:
+            push(self._vars)
+            pushed = pushed + 1
+""", 'C02.R1'),
+    V('mapping pushed under globals', 'DT_String.py',
+      """            if globals:
+                push(globals)
+            if mapping:
+                push(mapping)""",
+      """            if mapping:
+                push(mapping)
+            if globals:
+                push(globals)""", 'C02.R1'),
+    V('client path reversed', 'DT_String.py',
+      "                for ob in client:",
+      "                for ob in reversed(client):", 'C02.R1'),
+    V('seventh source', 'DT_String.py',
+      """        if kw:
+            push(kw)
+            pushed = pushed + 1
+
+        try:""",
+      """        if kw:
+            push(kw)
+            pushed = pushed + 1
+        push(self.__dict__)
+        pushed = pushed + 1
+
+        try:""", 'C02.R1'),
+    V('template variables never pushed', 'DT_String.py',
+      """        if self._vars:
+            push(self._vars)
+            pushed = pushed + 1
+
+""", "", 'C02.R1'),
+    V('ctor mapping overrides keyword defaults', 'DT_String.py',
+      "if k[:1] != '_' and k not in vars:", "if k[:1] != '_':", 'C02.R2'),
+    V('ctor copies underscore names', 'DT_String.py',
+      "if k[:1] != '_' and k not in vars:", "if k not in vars:", 'C02.R2'),
+    V('expressions fetch called', 'DT_Util.py',
+      "d[name] = md.getitem(name, 0)", "d[name] = md.getitem(name, 1)",
+      'C02.R3'),
+    V('expressions fetch through __getitem__', 'DT_Util.py',
+      "d[name] = md.getitem(name, 0)", "d[name] = md[name]", 'C02.R3'),
+    V('md[name] no longer calls', '_DocumentTemplate.py',
+      "return self.getitem(name, call=1)", "return self.getitem(name)",
+      'C02.R3'),
+    V('auto-call regardless of flag', '_DocumentTemplate.py',
+      """            if call:
+                if hasattr(e, '__render_with_namespace__'):""",
+      """            if True:
+                if hasattr(e, '__render_with_namespace__'):""", 'C02.R3'),
+    V('with fetches its object uncalled', 'DT_With.py',
+      "            v = md[expr]", "            v = md.getitem(expr, 0)",
+      'C02.R3'),
+    V('sub-template called without the namespace', '_DocumentTemplate.py',
+      "                        return e(None, self)",
+      "                        return e(None)", 'C02.R3'),
+    V('lookup bottom-up', '_DocumentTemplate.py',
+      """        for e in reversed(self._data):
+            try:
+                e = e[key]
+            except (KeyError, NameError):
+                continue
+
+            if call:""",
+      """        for e in self._data:
+            try:
+                e = e[key]
+            except (KeyError, NameError):
+                continue
+
+            if call:""", 'C02.R4'),
+    V('push at the front', '_DocumentTemplate.py',
+      "        self._data.append(src)", "        self._data.insert(0, src)",
+      'C02.R4'),
+    V('let does not pop on return', 'DT_Let.py',
+      """        finally:
+            md._pop(1)""",
+      """        finally:
+            pass""", 'C02.R5'),
+    # silent
+    V('silent: hoist globals alias', 'DT_String.py',
+      """            shared_globals = self.shared_globals
+            if shared_globals:
+                push(shared_globals)""",
+      """            sg = self.shared_globals
+            if sg:
+                push(sg)"""),
+    V('silent: keyword form of the flag', 'DT_Util.py',
+      "d[name] = md.getitem(name, 0)", "d[name] = md.getitem(name, call=0)"),
+]
